@@ -296,6 +296,13 @@ Example C20_special_literal_nonvacuous :
   vspecials wv_spm = [] ++ byte_token 104 :: [byte_token 105] /\ index_of [97; 60; 48; 120; 54; 56; 62; 98]%N (byte_token 104) = Some 1%nat.
 Proof. split; reflexivity. Qed.
 
+(** the order "split on special literals first, then escape spaces": a control token whose literal contains a space
+    is found in text with spaces around it (SentencePiece) *)
+Example C20_special_literal_with_space :
+  spm_encode wv_spm2 [97; 32; 60; 101; 32; 116; 62; 32; 98]%N false = [258; 0; 260; 0; 259]%Z /\
+  spm_decode wv_spm2 [258; 0; 260; 0; 259]%Z = DOk [97; 32; 60; 101; 32; 116; 62; 32; 98]%N.
+Proof. exact wv_spm2_spaced_special. Qed.
+
 (** * the Go struct satisfies the hypotheses put on abstract vocabularies *)
 Theorem C20_vocab_of_ok : forall values types scores merges bos eos ab ae,
   let v := vocab_of values types scores merges bos eos ab ae in
